@@ -516,6 +516,12 @@ def run(ctx):
         cases.append(([(k, 'a=1'), ('m', 'x'), (k, 'b=2'), ('zz', 't')], shapes[(i + ctx.seed) % 4]))
         # text values that happen to be (or not to be) valid base64 must arrive as the same text
         cases.append(([(k, 'YWJj'), (k, 'hello world!'), (k, 'abcd')], shapes[(i + 1 + ctx.seed) % 4]))
+    # large metadata (still within HTTP/2's 64 KiB header-list default): size alone must change nothing
+    for i, big in enumerate([[('big', 'x' * 9000)], [('big-bin', bytes(range(256)) * 40)],
+                             [('a', 'y' * 20000), ('b-bin', b'\x01' * 15000), ('c', 'z')],
+                             [('k%d' % j, 'v' * 700) for j in range(40)]]):
+        cases.append((big, shapes[(i + ctx.seed) % 4]))
+        cases.append((big, shapes[(i + 1 + ctx.seed) % 4]))
     # sequences of calls on one channel: nothing of one call's metadata may show up in a later call
     seqs = [[None, None], [[], None, []], [None, [('a', '1')], None], [[('a', '1')], [], [('b-bin', b'\x00')], None]]
     for _ in range(ctx.n(6, 40)):
